@@ -28,6 +28,9 @@ def gen_cases(rng, tier):
         cases.append(dict(mode='rt', ops=ops, level=rng.choice([-1, 0, 9]), wc=k % 5, rd=(k * 2) % 5, reads=[0], delay=0, hbytes=True))
         if k != 2:
             cases.append(dict(mode='rt', ops=ops, level=-1, wc=(k + 1) % 5, rd=k % 5, reads=[rng.choice([1, 2, 3]), 0], delay=0, hbytes=True))
+    # the largest members the writer can emit (65535 and 65536 bytes: BSIZE 0xfffe and 0xffff), read back
+    import c08
+    cases += [c for c in c08.boundary_family(rng, 'quick') if c['aim'] in (65535, 65536)]
     for i in range(nbig + nsmall):
         big = i < nbig
         ops = wrlib.gen_script(rng, big, nops=(rng.randrange(1, 4) if big else None), after_close=(rng.random() < 0.1))
